@@ -2,7 +2,7 @@
 # usage: tools/try_seeded.sh <dir with patch.diff> <property id> [more ids...]
 # Runs the quick checks of the given properties against a scratch worktree of /repo with the patch applied
 # (sandbox, /repo itself is not touched) and prints their exit codes. Cleans up afterwards.
-d="$1"; shift
+d=$(cd "$1" && pwd); shift
 n="seed_$(basename "$d")_$$"
 eval $(/verif/tools/mksandbox.sh "$n")
 if ! git -C /tmp/pvsb/$n/repo apply "$d/patch.diff"; then echo "patch does not apply"; /verif/tools/rmsandbox.sh "$n"; exit 2; fi
